@@ -38,11 +38,11 @@ func propDefs() map[string]*PropDef {
 		DesignRef: "DESIGN.md section 5 C07",
 	}
 	m["C10"] = &PropDef{
-		ID:    "C10",
-		Funcs: append(append(node4Funcs(), node16OtherFuncs()...), nodeFuncs(nil)...),
-		Asm:   true,
+		ID:     "C10",
+		Funcs:  append(append(node4Funcs(), node16OtherFuncs()...), nodeFuncs(nil)...),
+		Asm:    true,
 		Lemmas: true,
-		Floor: 1500,
+		Floor:  1500,
 		Trusted: []string{
 			"amd64 instruction table of govc/asm.go (MOVQ/MOVB/MOVD, PXOR, PSHUFB, VMOVDQU, PCMPEQB, PCMPGTB, PMOVMSKB, SALW, SUBW, ANDW, CMPW/JEQ, TZCNTW, RET; Intel SDM semantics incl. 5-bit SALW count mask and partial-register writes)",
 			"node16_arm64.s is not the code that runs here and is not verified",
@@ -66,7 +66,7 @@ func propDefs() map[string]*PropDef {
 		DesignRef: "DESIGN.md section 5 C01",
 	}
 	m["C03"] = &PropDef{
-		ID: "C03",
+		ID:    "C03",
 		Funcs: append(wrapperFuncs([]string{"Range", "restoreKey"}, safetyInc), append(seqFuncsOnly("rangeScan", safetyInc), FuncCheck{Fn: "maximum", Layer: "C", Include: safetyInc}, FuncCheck{Fn: "longestCommonPrefix", Layer: "C", Include: safetyInc})...),
 		Floor: 1500,
 		Assumptions: []string{
@@ -77,7 +77,7 @@ func propDefs() map[string]*PropDef {
 		DesignRef: "DESIGN.md section 5 C03, section 12",
 	}
 	m["C04"] = &PropDef{
-		ID: "C04",
+		ID:    "C04",
 		Funcs: append(wrapperFuncs([]string{"Prefix", "All", "restoreKey"}, safetyInc), append(seqFuncsOnly("lowestCommonParent", safetyInc), seqFuncsOnly("filter$1", safetyInc)...)...),
 		Floor: 150,
 		Assumptions: []string{
@@ -91,7 +91,7 @@ func propDefs() map[string]*PropDef {
 		Funcs: append(append(wrapperFuncs([]string{"Minimum", "Maximum", "restoreKey", "TopK", "BottomK"}, safetyInc),
 			FuncCheck{Fn: "minimum", Layer: "C"}, FuncCheck{Fn: "maximum", Layer: "C"}), boundedSeqFuncs(nil)...),
 		Static: func(p *Program) []*Obligation { return reiterableObligations(p, []string{"topK$1", "bottomK$1"}) },
-		Floor: 250,
+		Floor:  250,
 		Assumptions: []string{
 			"SCOPE: decides for Minimum and Maximum of all six kinds: they report 'none' exactly when the tree is empty (none_iff_empty), otherwise return the key and value of a live leaf of this tree reached by the leftmost / rightmost occupied slot of every node class on the way (contracts of minimum/maximum: first/last occupied slot per class, result is a leaf, loop terminates), fault-free for every tree satisfying WF1, and write nothing. For TopK/BottomK: the per-iteration remaining count (defect F6, fixed) statically; the loop body never decrements below zero (n == 0 and exhausted counts return before yielding), stops when the consumer stops, and faults nowhere (contracts of topK$1/$1$1, bottomK$1/$1$1 - see C14)",
 			"NOT decided: that the leftmost leaf holds the smallest key (needs the ordering clause of the tree invariant, rung 2); the element sequences of TopK/BottomK",
@@ -270,8 +270,8 @@ func helperFuncs(include []string) []FuncCheck {
 // generated and attempted on every run, but not part of any claim
 var insertRung2 = []string{
 	`call:\(\*node4\)\.addChild@newNode\.addChild\(ref,(keyS|colKey)\[depth\+prefixDiff\].*/requires#2\.1\.1`, // second branch byte differs from the first
-	`index@newNode\.addChild\(ref,leafKey\[depth\+prefixDiff\]`,                                        // long path: leaf key is long enough
-	`^extent/.*getTransformKey`,                                                                             // long path: minimum leaf's key extent after relinking
+	`index@newNode\.addChild\(ref,leafKey\[depth\+prefixDiff\]`,                                               // long path: leaf key is long enough
+	`^extent/.*getTransformKey`, // long path: minimum leaf's key extent after relinking
 }
 
 // seqFuncs: the traversal closures behind the sequence methods and the subtree selection of
